@@ -166,9 +166,12 @@ def bounded(tier, seed):
                 if again != out:
                     viol.append({"clause": "doc_rewrite_idempotent", "input": {"text": text, "options": o, **P.doc_features(text)},
                                  "got": again[:600], "want": out[:600]})
+    # coalesce_raw_text_nodes (runs before either typography rewrite) against its specification on every short child sequence
+    from . import funcspecs as FS
+    evals += FS.coalesce_spec_sweep(viol, 6 if tier == "quick" else 7)
     return {"evaluations": evals, "distinct_nontrivial": len(distinct), "violations": viol,
             "samples": [{"text": "a...b"}, {"text": docs[-4]}],
-            "rule": "ellipses() on every string of length <= %d over the 13-symbol alphabet (incl. a pre-existing ellipsis character) that contains '...' or the ellipsis character: relation D "
+            "rule": "(also: coalesce_raw_text_nodes == 'each maximal run RawText (soft-break RawText)* becomes its first node with the texts joined by newline, every other node kept' on every child sequence of <= 6 (thorough 7) nodes over {text, soft break, hard break, code span, emphasis}) ellipses() on every string of length <= %d over the 13-symbol alphabet (incl. a pre-existing ellipsis character) that contains '...' or the ellipsis character: relation D "
                     "(alignment: only three-dot runs become the ellipsis character, only the spaces around them change), texts without a three-dot run unchanged, idempotence of the rewrite; documents of the document space + 4 targeted ones: option on vs off differ only by "
                     "'...' -> '…' and spaces, literal spans identical; seeded prose with dot runs next to soft breaks at 6 widths x both modes with the option on: a second formatting pass changes nothing; distinct = distinct rewritten strings" % maxlen,
             "exhaustive": True, "bound": "strings <= %d symbols" % maxlen}
